@@ -583,7 +583,8 @@ fn wide_tx_family(rep: &mut Report, n: usize, limit: usize) {
                     if next.is_none() {
                         break;
                     }
-                    if page > pages_total + 3 {
+                    // (finding F10 re-lists up to n elements: twice the pages at most)
+                    if page > 2 * pages_total + 3 {
                         out.violation("pagination-does-not-terminate", None, json!({"pages_so_far": page, "outputs": n, "page_size": limit}));
                         break;
                     }
@@ -612,13 +613,15 @@ fn wide_tx_family(rep: &mut Report, n: usize, limit: usize) {
                     if !d.is_clean() {
                         // signature of finding F10: only elements of the wide transaction,
                         // each missing element has vout >= 256 or is shadowed by one
+                        // (with other page sizes the same cursor mix-up re-lists elements
+                        // instead: duplicates, nothing missing)
                         let f10 = d.wrong_height.is_empty()
                             && d.wrong_value.is_empty()
                             && d.surplus.is_empty()
-                            && d.duplicates == 0
+                            && n > 256
                             && stabilise_after > 0
                             && stabilise_after < pages_total
-                            && !d.missing.is_empty()
+                            && (!d.missing.is_empty() || d.duplicates > 0)
                             && d.missing.iter().all(|m| m.0 .1 >= 256);
                         out.violation(
                             "snapshot-content",
@@ -636,6 +639,26 @@ fn wide_tx_family(rep: &mut Report, n: usize, limit: usize) {
         out.leaves += 1;
     }
     rep.out.merge(out);
+}
+
+/// Replays one recorded family instance (wide transaction / real limit) without the rest of
+/// the tier. None if the history is not a family history.
+pub fn replay_family(hist: &Value, tier: &str) -> Option<i32> {
+    let fam = hist["family"].as_str()?;
+    let mut rep = Report::new("C06", tier, "model_checking");
+    match fam {
+        "wide transaction" => {
+            let n = hist["outputs"].as_u64()? as usize;
+            let l = hist["page_size"].as_u64()? as usize;
+            wide_tx_family(&mut rep, n, l);
+        }
+        "real page limit" => {
+            let n = hist["outputs"].as_u64()? as usize;
+            real_limit_family(&mut rep, n);
+        }
+        _ => return None,
+    }
+    Some(rep.finish())
 }
 
 pub fn run(tier: &str) -> i32 {
